@@ -415,7 +415,7 @@ def slxLine (args impl : List String) : String :=
       | some c0 => decide (c0 ≥ 1000) && finalTok != thenTok
       | none => false
     let v := verdict "C18" true (returned && decide (genLoads ≤ SL.RETRIES + 1) && thenTok != "unbounded") ++ " " ++
-             verdict "C02" true secondOk ++ " " ++ verdict "C03" true finalOk ++ " " ++ verdict "C04" true finalOk
+             verdict "C02" true secondOk ++ " " ++ verdict "C03" true finalOk ++ " " ++ verdict "C04" true (secondOk && finalOk)
     let tags := (if genLoads > 1000 then ["exhaust"] else ["short"]) ++ (if mode == 1 then ["deadWriter"] else if mode == 3 then ["alternating"] else [])
     s!"{m} | {v} | {String.intercalate "," tags}"
   | _ => "bad-op | |"
